@@ -87,3 +87,68 @@ Section LapTotal.
     rewrite E. eexists. eexists. reflexivity.
   Qed.
 End LapTotal.
+
+(* ---------------------------------------------------------------------- *)
+(*  ... and conversely: LOk only on well-formed neighbour lists             *)
+(* ---------------------------------------------------------------------- *)
+Section LapTotalConverse.
+  Context {F : Type} {Fo : FieldOps F} {Ff : IsField F}.
+
+  Variable dist : nat -> nat -> F.
+  Variable width : F.
+  Variable expo : F -> F.
+  Variable n : nat.
+  Variable nbrs : list (list nat).
+  Variable k : nat.
+
+  Lemma edges_ok_len i cur st p st' :
+    fold_left (edge_step dist width expo i cur) (seq 0 p) (LOk st) = LOk st' -> p <= length cur.
+  Proof.
+    revert st'. induction p as [|p IH]; intros st' H; [lia|].
+    rewrite fold_seq_S in H.
+    destruct (fold_left (edge_step dist width expo i cur) (seq 0 p) (LOk st)) as [st1|a b c] eqn:E.
+    - pose proof (IH st1 eq_refl) as Hp. unfold edge_step in H.
+      destruct (nth_error cur p) as [nb0|] eqn:En; [|discriminate].
+      assert (Hlt : p < length cur) by (apply nth_error_Some; rewrite En; discriminate). lia.
+    - cbn [edge_step] in H. discriminate.
+  Qed.
+
+  Lemma rows_ok_len m st st' :
+    fold_left (row_step dist width expo k nbrs) (seq 0 m) (LOk st) = LOk st' ->
+    forall i, i < m -> i < length nbrs /\ k <= length (nth i nbrs []).
+  Proof.
+    revert st'. induction m as [|m IH]; intros st' H i Hi; [lia|].
+    rewrite fold_seq_S in H.
+    destruct (fold_left (row_step dist width expo k nbrs) (seq 0 m) (LOk st)) as [st1|a b c] eqn:E.
+    - destruct (Nat.eq_dec i m) as [->|Hne]; [|apply (IH st1 eq_refl); lia].
+      unfold row_step in H. destruct (nth_error nbrs m) as [cur|] eqn:En; [|discriminate].
+      split.
+      + apply nth_error_Some. rewrite En. discriminate.
+      + rewrite (nth_error_nth nbrs m [] En). apply (edges_ok_len m cur st1 k st'). exact H.
+    - cbn [row_step] in H. discriminate.
+  Qed.
+
+  Theorem compute_laplacian_ok_iff :
+    k = length (hd [] nbrs) -> nbrs <> [] ->
+    ((exists ts D, compute_laplacian dist width expo n nbrs = LOk (ts, D)) <->
+     (n <= length nbrs /\
+      (forall i, i < n -> k <= length (nth i nbrs [])) /\
+      (forall i q, i < n -> q < k -> nb_at nbrs i q < n))).
+  Proof.
+    intros Ek Hne. split.
+    - intros [ts [D H]].
+      pose proof (compute_laplacian_spec_k dist width expo n nbrs k ts D Ek H) as [_ [_ [Hid _]]].
+      unfold compute_laplacian in H.
+      destruct nbrs as [|first rest] eqn:En; [contradiction|].
+      cbn [hd] in Ek. rewrite <- Ek in H. rewrite <- En in *.
+      destruct (fold_left (row_step dist width expo k nbrs) (seq 0 n)
+                  (LOk (mk_lstate (repeat fzero n) []))) as [st|a b c] eqn:Ef; [|discriminate].
+      pose proof (rows_ok_len n _ _ Ef) as R.
+      split; [|split; [|exact Hid]].
+      + destruct n as [|n']; [lia|]. destruct (R n' (Nat.lt_succ_diag_r n')) as [Hl _]. lia.
+      + intros i Hi. apply (R i Hi).
+    - intros [Hlen [Hk Hid]].
+      apply (compute_laplacian_total dist width expo n nbrs k Hlen Hk Hid Ek Hne).
+  Qed.
+End LapTotalConverse.
+
